@@ -38,7 +38,7 @@ class OurKeyboardInterrupt(KeyboardInterrupt):
 VALUE = ("value",)
 OTHER = ("other",)
 OUTCOMES = ("normal", "Exception", "BaseException", "StopIteration", "StopAsyncIteration", "RuntimeError", "GeneratorExit", "KeyboardInterrupt")
-HANDLERS = ("none", "finally", "swallow", "reraise", "raise-new", "raise-new-from-none", "raise-same-type", "return", "yield-again", "raise-StopAsyncIteration")
+HANDLERS = ("none", "finally", "swallow", "reraise", "raise-new", "raise-new-from-none", "raise-same-type", "return", "yield-again", "raise-StopAsyncIteration", "raise-new-RuntimeError", "raise-new-RuntimeError-from-none", "finally-raising-RuntimeError")
 
 
 def make_gen(pre, handler, cont, log, E):
@@ -78,8 +78,14 @@ def make_gen(pre, handler, cont, log, E):
                 elif handler == 8:
                     yield OTHER
                     log.append("resumed-after-second-yield")
-                else:
+                elif handler == 9:
                     raise StopAsyncIteration("from handler")
+                elif handler == 10:
+                    raise RuntimeError("new runtime error")
+                elif handler == 11:
+                    raise RuntimeError("new runtime error") from None
+                else:
+                    raise RuntimeError("new runtime error")
         if cont == 1:
             yield OTHER
             log.append("resumed-after-extra-yield")
@@ -144,7 +150,7 @@ def classify(out, E):
 
 
 def _pre(pre, handler, cont, outcome):
-    ok = 0 <= pre <= 2 and 0 <= handler <= 9 and 0 <= cont <= 2 and 0 <= outcome <= 7
+    ok = 0 <= pre <= 2 and 0 <= handler <= 12 and 0 <= cont <= 2 and 0 <= outcome <= 7
     if P("outcome") is not None:
         ok = ok and outcome == P("outcome")
     if P("pre") is not None:
@@ -197,7 +203,7 @@ def h_cm(pre: int, handler: int, cont: int, outcome: int):
     return finish(ok, ("body" in ls and outcome != 0) or pre != 2 or outcome == 0, ("cm", pre, HANDLERS[handler], cont, OUTCOMES[outcome], cs[0]) if pre == 2 else ("cm", pre, "generator-never-yields: handler/continuation irrelevant", cs[0]))
 
 
-GRID = {"h_cm": lambda: [(p, h, c, o) for p in range(3) for h in range(10) for c in range(3) for o in range(8) if P("outcome") in (None, o) and P("pre") in (None, p)]}
+GRID = {"h_cm": lambda: [(p, h, c, o) for p in range(3) for h in range(13) for c in range(3) for o in range(8) if P("outcome") in (None, o) and P("pre") in (None, p)]}
 
 
 def jobs(tier):
@@ -210,6 +216,6 @@ def jobs(tier):
 
 
 LEVEL = "other"
-BOUNDS = {"quick": "all 720 generator programs x block outcomes of the property's grammar (3 x 10 x 3 x 8), each selected by four symbolic ints; also executed natively on the full grid", "thorough": "same (the space is finite and exhausted)"}
+BOUNDS = {"quick": "all 936 generator programs x block outcomes of the property's grammar (3 x 13 x 3 x 8: the grammar's ten handlers plus three that raise a new RuntimeError), each selected by four symbolic ints; also executed natively on the full grid", "thorough": "same (the space is finite and exhausted)"}
 OUTSIDE = ["generators with more than one try block or nested context managers", "__context__/__cause__ chains of the propagated exception", "KeyboardInterrupt is represented by a subclass"]
 NONTRIVIAL_RULE = "the block was entered and ended with an exception on the path"
